@@ -186,12 +186,14 @@ class ForEach:
         self.tag = tag
 
 
-def trace_loop_hook(expected, locals_=(), post_iter=None, tag="foreach", pure=()):
+def trace_loop_hook(expected, locals_=(), post_iter=None, tag="foreach", pure=(), stable=()):
     """Rule for `for x in <AbstractSeq>: body` where the body communicates with the rest of the function only through the
     effect trace and through heap objects it hands to recorded callees:
        - the body, run on an ARBITRARY element (fresh symbols; finite case splits fork the path), must record exactly
          expected(I, elem) (obligations via a Cursor) and satisfy post_iter (e.g. temporaries restored);
-       - variables assigned by the body must be declared iteration-local and must not be read after the loop;
+       - variables assigned by the body must be declared iteration-local and must not be read after the loop, or be
+         declared `stable`: then the body must leave the variable bound to the IDENTICAL object it held at the start of
+         the iteration (obligation `.frame.stable.<name>`; e.g. `t = gate(t, q)` where the callee returns its argument);
        - then the whole loop records ForEach(seq): by induction on the length of the sequence, no unrolling."""
     import ast as _ast
     from .loops import assigned_names
@@ -204,7 +206,7 @@ def trace_loop_hook(expected, locals_=(), post_iter=None, tag="foreach", pure=()
         lab = f"{fr.func_name}:foreach({_ast.unparse(node.target)})"
         written = assigned_names(node.body) | assigned_names([_ast.Expr(value=node.target)]) | {
             n.id for n in _ast.walk(node.target) if isinstance(n, _ast.Name)}
-        extra = written - set(locals_) - {n.id for n in _ast.walk(node.target) if isinstance(n, _ast.Name)}
+        extra = written - set(locals_) - set(stable) - {n.id for n in _ast.walk(node.target) if isinstance(n, _ast.Name)}
         path.engine.record(f"{lab}.frame.vars", "discharged" if not extra else "refuted", 0,
                            "" if not extra else f"loop body assigns {sorted(extra)}, not declared iteration-local", None)
         if extra:
@@ -245,6 +247,10 @@ def trace_loop_hook(expected, locals_=(), post_iter=None, tag="foreach", pure=()
         cur.done()
         if post_iter is not None:
             post_iter(interp, elem, lab)
+        for nm_ in stable:
+            ok_ = nm_ in saved_env and fr.env.get(nm_) is saved_env[nm_]
+            path.engine.record(f"{lab}.frame.stable.{nm_}", "discharged" if ok_ else "refuted", 0,
+                               "" if ok_ else f"after the loop body `{nm_}` is bound to a different object than before", None)
         # leave the arbitrary iteration
         del path.pc[saved_pc:]
         fr.env.clear()
